@@ -10,11 +10,66 @@ RULE = ('(x, y) sequences: x from the 10 section-3.1 shape families (scale 1e-25
         'exactly collinear (both slopes; dyadic data so collinearity is exact), noisy-linear with correlation from +-0.999999 to '
         '0 and an independent offset up to 1e9, or small integers; built one at a time (observed after every add), by collect / '
         'extend (value and reference) and by random merge histories (k<=10 chunks, empty chunks, comb / balanced / random trees); '
-        'each sequence is also fed with x and y swapped. Every accessor is compared with exact rational means, Sxx, Syy, Sxy '
+        'each sequence is also fed with x and y swapped; sample sizes 2^16..2^61 by repeated self-merging (exact multiset oracle). Every accessor is compared with exact rational means, Sxx, Syy, Sxy '
         'within the section-2 envelopes with kappa = max(kappa_x, kappa_y); pearson on scale 1. distinct_nontrivial = distinct '
         '(program) cases with a checked state having n>=2, both spreads >0 and a non-vacuous envelope.')
 ASSUME = ['CPython int/Fraction arithmetic is exact; sqrt via isqrt to 2^-200', 'driver faithfully prints accessor bit patterns',
           'envelope constants of DESIGN.md section 2 (calibrated, fixed)']
+
+
+def bigcount(binary, variant, seed):
+    """Sample sizes from 2^16 to beyond 2^53 by repeated self-merging; two huge operands with different means merged (both
+    orientations); single adds afterwards.  The multiset is known exactly, so the exact oracle still applies."""
+    import random
+    import pairs
+    from common import Case
+    rng = random.Random(seed)
+    res = Result()
+    cases, plan = [], []
+    for ka, kb in [(16, 16), (31, 31), (32, 32), (33, 0), (33, 33), (40, 20), (53, 1), (54, 54), (60, 3)]:
+        for rep in range(2):
+            sl = rng.choice([1.0, -0.5, 0.25, -2.0])
+            pa = [(float(rng.randint(-20, 20)) + 0.5, 0.0) for _ in range(rng.randint(2, 4))]
+            pa = [(x, sl * x + float(rng.randint(-3, 3))) for x, _ in pa]
+            pb = [(float(rng.randint(30, 60)), float(rng.randint(-40, 40)) + 0.25) for _ in range(rng.randint(1, 3))]
+            extras = [(float(rng.randint(100, 300)), float(rng.randint(-300, 300))), (-7.5, 0.0), (1.25, 1.0)]
+            c = Case('bc-%d-%d-%d' % (ka, kb, rep), 'Covariance', meta={'ka': ka, 'kb': kb})
+            c.op('N', 0)
+            c.op('A', 0, [v for p in pa for v in p])
+            for _ in range(ka):
+                c.op('M', 0, 0)
+            c.op('N', 1)
+            c.op('A', 1, [v for p in pb for v in p])
+            for _ in range(kb):
+                c.op('M', 1, 1)
+            marks = [(c.op('O', 0), list(pa), [2 ** ka] * len(pa))]
+            r_ = rng.randint(0, 1)
+            c.op('M', r_, 1 - r_)
+            pts, counts = pa + pb, [2 ** ka] * len(pa) + [2 ** kb] * len(pb)
+            marks.append((c.op('O', r_), list(pts), list(counts)))
+            for e in extras:
+                c.op('A', r_, list(e))
+                pts, counts = pts + [e], counts + [1]
+                marks.append((c.op('O', r_), list(pts), list(counts)))
+            cases.append(c)
+            plan.append((c, marks))
+    logs = common.run_driver(binary, ''.join(c.text() for c in cases))
+    for c, marks in plan:
+        recs = logs[c.id]
+        for r in recs:
+            if r.kind in ('p', 'e', 'd'):
+                res.violation(PROP, 'Covariance:%s' % ('panic' if r.kind == 'p' else 'harness'),
+                              'Covariance with 2^%d / 2^%d-fold self-merged operands: op %d -> %s' % (c.meta['ka'], c.meta['kb'], r.op, r.rest), c, variant)
+        by_op = {r.op: r for r in recs if r.kind == 'o'}
+        for opi, pts, cnt in marks:
+            if opi in by_op:
+                pairs.judge_cov_multiset(PROP, pts, cnt, by_op[opi].kv, res, c, variant,
+                                         context='(self-merged 2^%d and 2^%d times)' % (c.meta['ka'], c.meta['kb']))
+                res.count('bigcount_states')
+                if sum(cnt) > 2 ** 53:
+                    res.count('bigcount_states_above_2^53')
+        res.distinct.add(c.key())
+    return res
 
 
 def run(tier, seed):
@@ -33,9 +88,11 @@ def run(tier, seed):
                       'lopsided': ([[(1100, 1)], [(4500, 2)], [(9000, 1)], [(70000, 1)]][s] if (s < 4 and variant == 'release') else []),
                       'seed': seed * 1000003 + s * 7919 + sum(map(ord, variant))} for s in range(nsh)]
             total.merge(common.run_shards(pairprop.shard, descs))
+            if variant in ('release', 'dev'):
+                total.merge(bigcount(binary, variant, seed))
     except common.Inconclusive as e:
         total.inconclusive.append(str(e))
-    need = {'lopsided_histories': 8, 'nontrivial_states': 1000, 'merge_histories': 500, 'nontrivial_merge_nodes': 500, 'swapped_states': 500,
+    need = {'bigcount_states': 100, 'bigcount_states_above_2^53': 20, 'lopsided_histories': 8, 'nontrivial_states': 1000, 'merge_histories': 500, 'nontrivial_merge_nodes': 500, 'swapped_states': 500,
             'exactly_collinear_states': 100, 'weak_correlation_states': 100, 'positive_correlation_states': 100,
             'negative_correlation_states': 100}
     return common.finish(PROP, tier, seed, total, RULE, t0, ASSUME, min_events=need,
